@@ -1465,6 +1465,11 @@ class ExplicitTag(StandardEncodeMixin, StandardDecodeMixin, Type):
         self.inner = inner
 
     def set_default(self, value):
+        # The inner type may be shared with other members of the same
+        # type and name, which must not get this default.
+        if not isinstance(self.inner, compiler.Recursive):
+            self.inner = copy(self.inner)
+
         self.inner.set_default(value)
 
     def get_default(self):
